@@ -7,6 +7,8 @@ import (
 	"strings"
 	"sync/atomic"
 
+	"github.com/paulsonkoly/chess-3/board"
+	. "github.com/paulsonkoly/chess-3/chess"
 	"github.com/paulsonkoly/chess-3/move"
 	"github.com/paulsonkoly/chess-3/uci"
 
@@ -43,6 +45,8 @@ var c10Roots = []c10Root{
 	{"4k3/8/8/8/6p1/8/7P/4K3 w - - 0 1", "h2h4 h2h3 e1d1 d1e1 e8d8 d8e8 g4h3", [2]int{13, 22}},
 	{"4k3/p7/8/1P6/8/8/8/4K3 b - - 0 1", "a7a5 a7a6 e1d1 d1e1 e8d8 d8e8 b5a6", [2]int{13, 22}},
 	{"4k3/7p/8/6P1/8/8/8/4K3 b - - 0 1", "h7h5 h7h6 e1d1 d1e1 e8d8 d8e8 g5h6", [2]int{13, 22}},
+	{"1n1k4/8/8/8/3p1p2/8/4P3/1N1R3K w - - 0 1", "e2e4 e2e3 b1c3 c3b1 b8c6 c6b8 f4e3 d4e3", [2]int{12, 16}},
+	{"1n1k4/8/4p3/8/3P1P2/8/8/1N1r3K b - - 0 1", "e6e5 b1c3 c3b1 b8c6 c6b8 f4e5 d4e5", [2]int{12, 16}},
 	{"k7/8/8/8/8/8/8/K7 w - - 0 1", "a1b1 b1a2 a2a1 a1a2 a2b1 b1a1 a8b8 b8a7 a7a8 a8a7 a7b8 b8a8", [2]int{12, 16}},
 	{"4k2r/8/8/8/8/8/8/R3K3 w - - 0 1", "a1a3 a3a2 a2a1 a1a2 a2a3 a3a1 h8h6 h6h7 h7h8 h8h7 h7h6 h6h8", [2]int{12, 16}},
 	{"6k1/8/8/8/2pP4/8/8/R3K3 b Q d3 0 1", "g8h8 h8g8 a1b1 b1a1 e1e2 e2e1 c4d3", [2]int{14, 21}},
@@ -279,6 +283,10 @@ func runC10(r *ev.Run) {
 	})
 	r.Set("long_history_steps", longSteps.Load())
 
+	// several games set up the same way (board.StartPos, and FromFEN of one text) and advanced in interleaved order:
+	// the history of one game must not leak into another
+	c10Interleaved(r, &steps)
+
 	r.States.Store(steps.Load())
 	r.Transitions.Store(steps.Load())
 	r.Validated.Store(steps.Load())
@@ -288,4 +296,51 @@ func runC10(r *ev.Run) {
 	r.Set("uci_histories", uciRuns.Load())
 	r.Set("distinct_outcomes", map[string]int64{"count_2": twos.Load(), "count_3": threes.Load(), "count_1": steps.Load() - twos.Load() - threes.Load()})
 	r.Set("rule", "all move sequences up to the stated length over small move alphabets from 10 shuffle roots (knight/king/rook oscillations, rooks losing castling rights on the way, double pushes creating transient en-passant rights, FEN roots with capturable and non-capturable targets, irreversible moves mid-history), by DFS over the real MakeMove/UndoMove; after every step Threefold() must equal min(3, occurrences of the reference key in the history); every 16th complete history also through `position fen .. moves ..` on a real driver; non-trivial = steps whose true count is 2 or 3")
+}
+
+// c10Interleaved advances k boards obtained from the same constructor round-robin with different shuffles
+// and checks every board's repetition count after every ply.
+func c10Interleaved(r *ev.Run, steps *atomic.Int64) {
+	type game struct {
+		b    *board.Board
+		p    refchess.Pos
+		keys []refchess.Key
+		path []string
+	}
+	start := refchess.MustFEN(StartPosFEN)
+	for _, how := range []string{"StartPos", "FromFEN"} {
+		var games []*game
+		for i := 0; i < 4; i++ {
+			g := &game{p: start, keys: []refchess.Key{start.Key()}}
+			if how == "StartPos" {
+				g.b = board.StartPos()
+			} else {
+				g.b, _ = board.FromFEN(StartPosFEN)
+			}
+			games = append(games, g)
+		}
+		allowed := c10Allowed(c10Roots[0].alphabet)
+		for ply := 0; ply < ev.Pick(r, 160, 300); ply++ {
+			for gi, g := range games {
+				var buf [256]refchess.Move
+				var cand []refchess.Move
+				for _, m := range g.p.LegalMoves(buf[:0]) {
+					if allowed[m.String()] {
+						cand = append(cand, m)
+					}
+				}
+				m := cand[(ply*(gi+1)+gi)%len(cand)]
+				g.b.MakeMove(move.Move(m.Enc()))
+				g.p = g.p.Make(m)
+				g.keys = append(g.keys, g.p.Key())
+				g.path = append(g.path, m.String())
+				steps.Add(1)
+				if got, want := int(g.b.Threefold()), c10Count(g.keys); got != want {
+					r.Fail("count/interleaved-games", c10Case{FEN: StartPosFEN, Moves: append([]string(nil), g.path...), Via: "api"},
+						"game %d of 4 boards from %s advanced in interleaved order, after %d plies: Threefold()=%d, true count %d", gi, how, len(g.path), got, want)
+					return
+				}
+			}
+		}
+	}
 }
